@@ -223,12 +223,17 @@ def run_case(case, rng):
             if len(Rk) < len(full):
                 case.check(len(Rk) >= k, "max_states:stopped-early", f"k={k} |R|={len(Rk)} |closure|={len(full)}")
             # prefix-closed: every non-initial member has a listed predecessor
-            ok = True
+            ok, ok_relaxed = True, True
             for t in Rk - S0:
-                if not any(q > 0 and u == t for s in Rk if s not in sp.flag or False
+                if not any(q > 0 and u == t for s in Rk if s not in sp.flag
                            for a in sp.acts[s] for u, q in sp.P[(s, a)]):
                     ok = False
-            case.check(ok, "max_states:not-prefix-closed", lambda: f"k={k} R={sorted(map(repr, Rk))}")
+                    # would it be explained by expanding an *initial* absorbing state (finding C06 iii)?
+                    if not any(q > 0 and u == t for s in Rk if (s not in sp.flag or s in S0)
+                               for a in sp.acts[s] for u, q in sp.P[(s, a)]):
+                        ok_relaxed = False
+            case.check(ok, "max_states:not-prefix-closed", lambda: f"k={k} R={sorted(map(repr, Rk))}",
+                       extra_only_from_initial_absorbing=bool(ok_relaxed and not ok), **facts)
 
 
 # ---------------------------------------------------------------------------------------------
